@@ -149,8 +149,12 @@ func (a *Act) havocCall(st *State, sig *types.Signature, args []Term, module boo
 	for i := range res {
 		rt := sig.Results().At(i).Type()
 		res[i] = tr.freshConst("hv_"+lastName(name), a.sortOf(rt))
-		a.assumeWF(st, rt, res[i], 1)
 	}
+	defer func() {
+		for i := range res {
+			a.assumeWF(st, sig.Results().At(i).Type(), res[i], 1)
+		}
+	}()
 	if module {
 		now := st.alloc
 		for _, cn := range sortedKeys(tr.comps) {
@@ -159,7 +163,9 @@ func (a *Act) havocCall(st *State, sig *types.Signature, args []Term, module boo
 				continue
 			}
 			prev := tr.heapOf(st, c)
-			if c.value {
+			if len(c.keySorts) == 0 {
+				st.heap[cn] = tr.newHeapBase(c, "call_"+cn)
+			} else if c.value {
 				st.heap[cn] = tr.heapFrame(prev, func(key []Term) Term { return app("<=", key[0], now) }, "call_"+cn)
 			} else {
 				tr.havocCells(st, c, "call")
@@ -202,6 +208,9 @@ func fieldOfValue(v ssa.Value) string {
 		st := v.X.Type().Underlying().(*types.Struct)
 		return typeStr(v.X.Type()) + "." + st.Field(v.Field).Name()
 	case *ssa.UnOp:
+		if g, ok := v.X.(*ssa.Global); ok {
+			return qualifier(g.Pkg.Pkg) + "." + g.Name()
+		}
 		if fa, ok := v.X.(*ssa.FieldAddr); ok {
 			pt := fa.X.Type().Underlying().(*types.Pointer).Elem()
 			st := pt.Underlying().(*types.Struct)
